@@ -46,3 +46,26 @@ func RunMany(seed int64, n int, cb Callbacks) {
 	close(idx)
 	wg.Wait()
 }
+
+// RunWraps runs n wrap sessions (see RunWrapSession) on a small worker pool.
+func RunWraps(seed int64, n int, heavy bool, cb Callbacks) {
+	var wg sync.WaitGroup
+	sem := make(chan struct{}, 6)
+	for i := 0; i < n; i++ {
+		wg.Add(1)
+		go func(i int) {
+			defer wg.Done()
+			sem <- struct{}{}
+			defer func() { <-sem }()
+			s, err := RunWrapSession(seed, i, heavy, cb.OnStep, cb.OnStoreErr)
+			if cb.OnEnd != nil {
+				cb.OnEnd(s, err)
+			}
+			if s != nil {
+				s.Close()
+				removeDir(s)
+			}
+		}(i)
+	}
+	wg.Wait()
+}
